@@ -3,7 +3,7 @@
 From MQ Require Import Base.Prelude Packet.Prim Packet.Props Packet.PropsProofs Generated.ObservedProps GenChecks.C18.
 
 (* the compiled crate, builder path AND parser path, equals the specification table on every cell
-   (14 locations, each on two base packets, x 27 identifiers x {once, twice}); the table is regenerated on every run *)
+   (14 locations, each on two base packets, x 27 identifiers x {once, twice with equal values, twice with different values}); the table is regenerated on every run *)
 Theorem C18_observed_props_are_spec_table :
   forallb prop_cell_ok observed_props = true /\
   list_eqb key3_eqb (map prop_cell_key observed_props) props_domain = true.
@@ -54,5 +54,5 @@ Print Assumptions C18_flag_values.
 
 Example C18_nonvacuous :
   placement_ok L_PUBLISH [11; 11; 38; 38; 35] = true /\ placement_ok L_SUBSCRIBE [11; 11] = false /\
-  placement_ok L_CONNECT [35] = false /\ length observed_props = 1512%nat.
+  placement_ok L_CONNECT [35] = false /\ length observed_props = 2268%nat.
 Proof. vm_compute. repeat split. Qed.
